@@ -341,11 +341,12 @@ for label, text in compiled.items():
     try:
         gg = G.parse_gbnf(text)
         lr = G.left_recursion(gg)
-        nfields = sum(1 for r in gg.order) - 8
+        nfields = len([r for r in gg.order if r not in ("ws", "field", "content", "envelope-start", "envelope-end",
+                                                          "meta-block", "meta-content", "meta-field", "document", "root")])
     except G.GBNFError:
         nfields = -1
     print(f"  {label}: tolerant={'ACCEPT' if not tol else 'REJECT'}  strict-only problems={len(strict)}"
-          f"  left-recursion={lr or 'none'}  (~{nfields} field rules)")
+          f"  left-recursion={lr or 'none'}  ({nfields} field rules)")
     lines = text.split("\n")
     for k, m in tol:
         n_rej += 1
@@ -366,6 +367,33 @@ for label, text in compiled.items():
                     break
         CHECKS += 1
 print(f"  {len(compiled)} compiled grammars, {n_rej} tolerant-mode problems")
+
+# synthetic META.CONTRACT inputs through the same compiler (reported only): shows what the reader catches
+print("== repo compiler on synthetic CONTRACT specs (reported, not asserted)")
+PROBES = {
+    "regex-escaped-dash": ['FIELD[ID]::REQ\u2227REGEX["^[a-z\\-]+$"]'],
+    "regex-counted-then-dash": ['FIELD[ID]::REQ\u2227REGEX["^[A-Z]{2,4}-[0-9]+$"]'],
+    "regex-literal-text": ['FIELD[ID]::REQ\u2227REGEX["^v[0-9]+$"]'],
+    "regex-group-alt": ['FIELD[ID]::REQ\u2227REGEX["^(foo|bar)$"]'],
+    "field-named-ws-and-root": ["FIELD[WS]::REQ", "FIELD[ROOT]::REQ"],
+    "field-name-collision": ["FIELD[A.B]::REQ", "FIELD[A_DOT_B]::REQ"],
+    "plain-enum": ["FIELD[S]::ENUM[a,b]"],
+}
+try:
+    from octave_mcp.core.gbnf_compiler import compile_gbnf_from_meta
+    for label, contract in PROBES.items():
+        try:
+            text = compile_gbnf_from_meta({"TYPE": "T", "CONTRACT": contract})
+        except Exception as e:                                       # noqa: BLE001
+            print(f"  {label}: compile raised {type(e).__name__}: {e}")
+            continue
+        tol = G.check_wellformed(text)
+        print(f"  {label}: tolerant={'ACCEPT' if not tol else 'REJECT'}  strict-only problems={len(G.strict_only_rejections(text))}")
+        for k, m in tol:
+            mm = re.search(r"line (\d+)", m)
+            print(f"      {k}: {m}\n        > {text.split(chr(10))[int(mm.group(1)) - 1] if mm else ''}")
+except ImportError as e:
+    print("  octave_mcp not importable:", e)
 
 print(f"== {CHECKS} checks, {len(FAILS)} failures")
 for f in FAILS:
